@@ -13,10 +13,14 @@ Terms are nested tuples `(op, ...)`:
   ("not", t) ("and"|"or", ts) ("phi", cond, a, b) ("isinstance", t, names) ("binop", op, a, b) ("fstr", parts) ("funcref", fi)
   ("classref", fq) ("bound", obj, fi) ("lambda", fi) ("global", dotted) ("builtin", name) ("any", gens) ("disj", alternatives) ("unknown", why)
   ("attrgetter", dotted)   -- `operator.attrgetter("a")`; `map` / `filter` / a call apply it like a lambda
+  ("partial", callable term, args, kwargs)   -- `functools.partial(f, ..)` of a followed callable; a call prepends the bound arguments
 
 Library calls with an exact meaning are normalised: `[*xs]` is `list(xs)`, `chain.from_iterable(xss)` / `chain(*xss)` / `sum(xss, [])` are the flattening generator / list
 (continuing the generators of xss when that is a comprehension), `map(f, <comprehension>)` / `filter(f, <comprehension>)` are the
-comprehension with f applied to / tested on its element, `islice(xs, n)` is ("call", "islice", (xs, n)) (c16_logic knows its length).
+comprehension with f applied to / tested on its element, `islice(xs, n)` is ("call", "islice", (xs, n)) (c16_logic knows its length),
+`compress(d, (f(v) for v in d.values()))` is `(k for k, v in d.items() if f(v))`, `operator.not_ / truth / getitem / contains / eq / ..`
+are the expression they compute (also as the function of `map` / `filter` / `partial`), `map(f, repeat(c), xs)` is `map(lambda x: f(c, x), xs)`,
+`d.setdefault(k, new) is new` for an object created in the same call is `k not in d` (and the entry is written only under `k not in d`).
 
 What is recorded: events (`raise`, `setitem`, `setattr`, `call` of an un-interpreted method, `return`) with the path condition under
 which they happen (a tuple of (term, polarity)), whether they sit in an un-summarised loop, and the AST node / function they came from.
@@ -46,7 +50,22 @@ BUILTIN_NAMES = {
 }
 
 
-CALLABLE_TERMS = ("lambda", "funcref", "classref", "bound", "attrgetter")
+CALLABLE_TERMS = ("lambda", "funcref", "classref", "bound", "attrgetter", "partial")
+OPERATOR_FUNCTIONS = {"not_": 1, "truth": 1, "getitem": 2, "contains": 2, "eq": 2, "ne": 2, "is_": 2, "is_not": 2}
+MAPPABLE_BUILTINS = ("bool", "len", "list", "tuple", "set", "frozenset", "sorted", "str")
+
+
+def is_callable_term(t: Term) -> bool:
+    """Terms `apply` knows how to call: followed callables, `operator.<fn>`, a few builtins used as functions."""
+    return t[0] in CALLABLE_TERMS or (t[0] == "global" and t[1].startswith("operator.") and t[1][9:] in OPERATOR_FUNCTIONS) or (t[0] == "builtin" and t[1] in MAPPABLE_BUILTINS)
+
+
+def subst(t, old: Term, new: Term):
+    if t == old:
+        return new
+    if isinstance(t, tuple):
+        return tuple(subst(x, old, new) for x in t)
+    return t
 LIBRARY_VALUES = ("operator.attrgetter",)  # library calls whose value may be held by a module-level constant
 
 
@@ -335,7 +354,7 @@ class SymExec:
             st.env[target.id] = v
         elif isinstance(target, (ast.Tuple, ast.List)):
             for i, el in enumerate(target.elts):
-                self.bind_target(el, ("item", v, i), st)
+                self.bind_target(el, v[1][i] if v[0] in ("tuple", "list") and len(v[1]) == len(target.elts) and not any(isinstance(x, ast.Starred) for x in target.elts) else ("item", v, i), st)
         elif isinstance(target, ast.Starred):
             self.bind_target(target.value, ("unknown", "starred"), st)
 
@@ -528,10 +547,17 @@ class SymExec:
         if isinstance(e, ast.Compare):
             parts = []
             left = self.ev(e.left, st, fr)
+            prev = e.left
             for op, r in zip(e.ops, e.comparators):
                 right = self.ev(r, st, fr)
-                parts.append(_cmp(type(op).__name__, left, right))
-                left = right
+                fresh = _setdefault_of_fresh(prev, r, left, right) if isinstance(op, (ast.Is, ast.IsNot)) else None
+                if fresh is not None:
+                    # `d.setdefault(k, new) is new` for an object created in this call: true exactly when k was absent
+                    absent = ("not", ("cmp", "In", fresh[0], fresh[1]))
+                    parts.append(absent if isinstance(op, ast.Is) else mk_not(absent))
+                else:
+                    parts.append(_cmp(type(op).__name__, left, right))
+                left, prev = right, r
             return parts[0] if len(parts) == 1 else ("and", tuple(parts))
         if isinstance(e, ast.IfExp):
             c = self.ev(e.test, st, fr)
@@ -732,6 +758,8 @@ class SymExec:
             t = self.library(lib, args, kws)
             if t is not None:
                 return t
+        while fterm is not None and fterm[0] == "partial":
+            args, kws, fterm = list(fterm[2]) + args, {**dict(fterm[3]), **kws}, fterm[1]
         if fterm is not None:
             if fterm[0] == "funcref":
                 target = fterm[1]
@@ -796,15 +824,73 @@ class SymExec:
 
     def library(self, fq: str, args: list, kws: dict) -> Term | None:
         """Standard-library callables with an exact meaning in terms: `attrgetter("a")`, `islice(xs, n)`, `chain.from_iterable(xss)`."""
+        if fq == "functools.partial" and args and is_callable_term(args[0]):
+            return ("partial", args[0], tuple(args[1:]), tuple(sorted(kws.items())))
         if kws:
             return None
-        if fq == "operator.attrgetter" and len(args) == 1 and args[0][0] == "const" and isinstance(args[0][1], str) and args[0][1]:
-            return ("attrgetter", args[0][1])
+        if fq == "operator.attrgetter" and args and all(a[0] == "const" and isinstance(a[1], str) and a[1] for a in args):
+            return ("attrgetter",) + tuple(a[1] for a in args)
+        if fq.startswith("operator.") and OPERATOR_FUNCTIONS.get(fq[9:]) == len(args):
+            fn = fq[9:]
+            if fn == "not_":
+                return mk_not(args[0])
+            if fn == "truth":
+                return ("call", "bool", (args[0],))
+            if fn == "getitem":
+                return ("index", args[0], args[1])
+            if fn == "contains":
+                return _cmp("In", args[1], args[0])
+            return _cmp({"eq": "Eq", "ne": "NotEq", "is_": "Is", "is_not": "IsNot"}[fn], args[0], args[1])
+        if fq == "itertools.compress" and len(args) == 2:
+            return self.compress(args[0], args[1])
         if fq == "itertools.islice" and len(args) == 2:
             return ("call", "islice", tuple(args))
         if fq == "itertools.chain.from_iterable" and len(args) == 1:
             return self.flatten(args[0])
         return None
+
+    def aligned(self, data: Term, selectors: Term):
+        """(iterable, element of data, element of selectors, base) when both walk the same collection in step: `d` / `d.keys()` next
+        to a comprehension over `d.values()` / `d.items()` / `d`, or `xs` next to a comprehension over `xs`."""
+
+        def unwrap(t: Term) -> Term:
+            while t[0] == "call" and isinstance(t[1], str) and t[1] in ("list", "tuple", "iter") and len(t[2]) == 1:
+                t = t[2][0]
+            return t
+
+        data, sel = unwrap(data), unwrap(selectors)
+        if data[0] == "mcall" and data[2] == "keys" and not data[3]:
+            data = data[1]
+        if sel == ("mcall", data, "values", ()):  # the values themselves, in step with the keys
+            bv = ("bv", self.binders)
+            return ("mcall", data, "items", ()), ("item", bv, 0), ("item", bv, 1), self.binders
+        if sel[0] != "comp" or sel[1] not in ("gen", "list") or len(sel[3]) != 1 or sel[3][0][1]:
+            return None
+        it, bv, elt, base = unwrap(sel[3][0][0]), ("bv", sel[4]), sel[2], sel[4]
+        if it == ("mcall", data, "values", ()):
+            return ("mcall", data, "items", ()), ("item", bv, 0), subst(elt, bv, ("item", bv, 1)), base
+        if it == ("mcall", data, "items", ()):
+            return it, ("item", bv, 0), elt, base
+        if it == data or it == ("mcall", data, "keys", ()):
+            return it, bv, elt, base
+        return None
+
+    def compress(self, data: Term, selectors: Term) -> Term | None:
+        """`compress(d, (f(v) for v in d.values()))` is `(k for k, v in d.items() if f(v))`; `compress(xs, (f(x) for x in xs))` is
+        `(x for x in xs if f(x))`."""
+        al = self.aligned(data, selectors)
+        if al is None:
+            return None
+        it, d_elt, s_elt, base = al
+        return ("comp", "gen", d_elt, ((it, (s_elt,)),), base)
+
+    def zip2(self, data: Term, other: Term) -> Term | None:
+        """`zip(d, (f(v) for v in d.values()))` is `((k, f(v)) for k, v in d.items())`."""
+        al = self.aligned(data, other)
+        if al is None:
+            return None
+        it, d_elt, s_elt, base = al
+        return ("comp", "gen", ("tuple", (d_elt, s_elt)), ((it, ()),), base)
 
     def flatten(self, x: Term, kind: str = "gen") -> Term:
         """`(e for xs in x for e in xs)`; when x is itself a comprehension its generators are continued."""
@@ -817,7 +903,10 @@ class SymExec:
     def _container_effects(self, recv: Term, attr: str, args, kws, st: State, fr: Frame, call: ast.Call) -> None:
         """dict.setdefault / dict.update / dict.__setitem__ on a state container are writes of entries."""
         if attr == "setdefault" and len(args) == 2:
+            saved = st.pc
+            st.pc += ((("cmp", "In", args[0], recv), False),)  # the entry is written only when the key is absent
             self.emit("setitem", st, call, fr, obj=recv, key=args[0], value=args[1], how="setdefault")
+            st.pc = saved
         elif attr == "__setitem__" and len(args) == 2:
             self.emit("setitem", st, call, fr, obj=recv, key=args[0], value=args[1], how="[]=")
         elif attr == "update":
@@ -845,6 +934,10 @@ class SymExec:
             return ({"frozenset": "set"}.get(name, name), ())
         if name == "bool" and len(args) == 1:
             return ("call", "bool", args)
+        if name == "zip" and len(args) == 2 and not kws:
+            z = self.zip2(args[0], args[1])
+            if z is not None:
+                return z
         if name == "sum" and len(args) == 2 and args[1] == ("list", ()) and not kws:
             return self.flatten(args[0], "list")  # `sum(xss, [])` concatenates the lists
         if name == "getattr" and len(args) in (2, 3) and not kws:
@@ -867,7 +960,7 @@ class SymExec:
                     st.heap[(args[0], n)] = new
                 st.pc = base
                 return NONE_T
-        if name in ("map", "filter") and len(args) == 2 and args[0][0] in CALLABLE_TERMS and args[1][0] == "comp" and args[1][1] != "dict" and args[1][4] >= self.binders:
+        if name in ("map", "filter") and len(args) == 2 and (is_callable_term(args[0]) or args[0][0] == "partial*") and args[1][0] == "comp" and args[1][1] != "dict" and args[1][4] >= self.binders:
             # over a comprehension: the function is applied to (the test is added to) what the comprehension yields
             inner = args[1]
             saved = self.binders
@@ -882,7 +975,13 @@ class SymExec:
                     return ("comp", "gen", r, inner[3], inner[4])
                 gens = inner[3][:-1] + ((inner[3][-1][0], inner[3][-1][1] + (r,)),)
                 return ("comp", "gen", inner[2], gens, inner[4])
-        if name in ("map", "filter") and len(args) == 2 and args[0][0] in CALLABLE_TERMS:
+        if name == "map" and len(args) > 2 and is_callable_term(args[0]) and not kws:
+            # `map(f, repeat(c), xs)`: every iterable but one repeats a constant
+            rep = [a[0] == "call" and a[1] == ("global", "itertools.repeat") and len(a[2]) == 1 for a in args[1:]]
+            if rep.count(False) == 1:
+                xs = args[1:][rep.index(False)]
+                return self.builtin("map", (("partial*", args[0], tuple(a[2][0] if r else None for a, r in zip(args[1:], rep))), xs), (), st, fr, call)
+        if name in ("map", "filter") and len(args) == 2 and (is_callable_term(args[0]) or args[0][0] == "partial*"):
             bv = ("bv", self.binders)
             self.binders += 1
             try:
@@ -897,11 +996,29 @@ class SymExec:
         return ("call", name, args + tuple(("kw", k, v) for k, v in kws))
 
     def apply(self, fterm: Term, args: list, st: State, fr: Frame, call: ast.Call) -> Term:
+        if fterm[0] == "partial*":  # (internal) a callable with some positional arguments fixed, the hole takes the element
+            return self.apply(fterm[1], [args[0] if a is None else a for a in fterm[2]], st, fr, call)
+        while fterm[0] == "partial":
+            if fterm[3]:
+                raise _Opaque
+            args, fterm = list(fterm[2]) + list(args), fterm[1]
+        if fterm[0] == "global":
+            r = self.library(fterm[1], list(args), {})
+            if r is None:
+                raise _Opaque
+            return r
+        if fterm[0] == "builtin":
+            if fterm[1] not in MAPPABLE_BUILTINS or len(args) != 1:
+                raise _Opaque
+            return self.builtin(fterm[1], tuple(args), (), st, fr, call)
         if fterm[0] == "attrgetter":
-            v = args[0]
-            for a in fterm[1].split("."):
-                v = self.load_attr(v, a, st, fr, None)
-            return v
+            vals = []
+            for dotted in fterm[1:]:
+                v = args[0]
+                for a in dotted.split("."):
+                    v = self.load_attr(v, a, st, fr, None)
+                vals.append(v)
+            return vals[0] if len(vals) == 1 else ("tuple", tuple(vals))
         if fterm[0] == "classref":
             return self.construct(fterm[1], args, {}, False, call, st, fr)
         if fterm[0] == "bound":
@@ -1037,6 +1154,18 @@ def phi_leaves(t: Term, conds: tuple = ()):
         yield from phi_leaves(t[3], conds + ((t[1], False),))
     else:
         yield conds, t
+
+
+def _setdefault_of_fresh(a: ast.expr, b: ast.expr, ta: Term, tb: Term):
+    """(key, mapping) when one side is (a variable holding) `<mapping>.setdefault(key, NEW)` and the other side the variable NEW, bound
+    to an object created by an expression of the running call (display, comprehension, constructor): its identity is new, so it
+    cannot be a value that was stored before."""
+    for name, tc, tn in ((b, ta, tb), (a, tb, ta)):
+        if not isinstance(name, ast.Name):
+            continue
+        if tc[0] == "mcall" and tc[2] == "setdefault" and len(tc[3]) == 2 and tc[3][1] == tn and (tn[0] in ("list", "dict", "set", "new", "obj") or (tn[0] == "comp" and tn[1] != "gen")):
+            return tc[3][0], tc[1]
+    return None
 
 
 def _as_load(t: ast.expr) -> ast.expr:
@@ -1211,7 +1340,9 @@ def show(t, depth: int = 0) -> str:
     if op == "unknown":
         return f"<?{t[1]}>"
     if op == "attrgetter":
-        return f"attrgetter({t[1]!r})"
+        return f"attrgetter({', '.join(repr(x) for x in t[1:])})"
+    if op == "partial":
+        return f"partial({', '.join([r(t[1])] + [r(x) for x in t[2]] + [f'{k}={r(v)}' for k, v in t[3]])})"
     return op + "(" + ", ".join(r(x) if is_term(x) else repr(x) for x in t[1:]) + ")"
 
 
